@@ -290,7 +290,17 @@ Proof.
     split; [lia|]. apply bound_W; auto; lia. }
   destruct (ch =? 64).
   { cbn [snd]. unfold sl_c. rewrite iter_cost_iters. split; [lia|]. apply bound_W; auto; lia. }
+  destruct (ch =? 68); [cbn [snd iters]; lia|]. destruct (ch =? 100); [cbn [snd iters]; lia|].
   unfold one; cbn [snd iters]; lia.
+Qed.
+
+(* the SP group of the cost dispatcher is the SP group of AnsiTok.astep_gen for the finals without a clamp (D, d, anything else) *)
+Lemma sp_arms_only_l : forall inv t p ch, (ch =? 65) || (ch =? 64) = false -> st p = SEndCsi 32 ->
+  fst (csi_sp_c t p ch) = astep_gen inv (mkA t p) ch.
+Proof.
+  intros inv t p ch H Hs. unfold csi_sp_c, astep_gen. cbn [tm ps]. rewrite Hs. cbn [Z.eqb Pos.eqb].
+  destruct (ch =? 65); [discriminate H|]. destruct (ch =? 64); [discriminate H|]. cbn [fst].
+  destruct (ch =? 68); [reflexivity|]. destruct (ch =? 100); reflexivity.
 Qed.
 
 (* ---- the arms that the fixes did not touch take their outcome from AnsiTok.csi_final ------------------------------------------------ *)
